@@ -4,10 +4,10 @@
 # (or the given ones), prints the verdict lines, and ALWAYS restores /repo's working tree afterwards.
 cd "$(dirname "$0")/.."
 ID=$1; shift
-D=seeded/$ID
+D=$(pwd)/seeded/$ID
 [ -f $D/patch.diff ] || { echo "no $D/patch.diff"; exit 2; }
 PROPS="$@"
-[ -z "$PROPS" ] && PROPS=$(python3 -c "import json;m=json.load(open('$D/meta.json'));print(' '.join(m.get('run_checks') or [m['property']]))")
+[ -z "$PROPS" ] && PROPS=$(python3 -c "import json,os;f='$D/meta.json' if os.path.exists('$D/meta.json') else '$D/meta.agent.json';m=json.load(open(f));print(' '.join(m.get('run_checks') or [m['property']]))")
 if [ -n "$(git -C /repo status --porcelain)" ]; then echo "/repo working tree is not clean"; exit 2; fi
 git -C /repo apply $D/patch.diff || { echo "patch does not apply"; exit 2; }
 mkdir -p .cache/seeded
